@@ -282,8 +282,13 @@ def bestMerge (T : List Entry) (A : Aliases) : Option Merge :=
 
 /-! ### ordered_covering, minimise -/
 
-/-- `sorted(routing_table, key=generality)` (stable) -/
-def sortTable (T : List Entry) : List Entry := T.mergeSort (fun a b => a.gen ≤ b.gen)
+/-- insert before the first entry that is at least as general (keeps equal keys in input order) -/
+def insertGen (e : Entry) : List Entry → List Entry
+  | [] => [e]
+  | x :: r => if e.gen ≤ x.gen then e :: x :: r else x :: insertGen e r
+
+/-- `sorted(routing_table, key=generality)`: a stable sort (insertion sort from the right) -/
+def sortTable (T : List Entry) : List Entry := T.foldr insertGen []
 
 def tooLong (T : List Entry) (target : Option Nat) : Bool :=
   match target with
